@@ -477,3 +477,6 @@ func C12_RespondAnyState() {
 	focus = "C12"
 	sceneRespond(ReqOpts{MaxProv: 1, OnlyState: -1, Module: true, ModuleOnly: true, NoSlash: true})
 }
+
+func C13_GenesisWithdrawAddrs() { focus = "C13"; sceneGenesisWithdrawAddrs() }
+func C19_GenesisWithdrawAddrs() { focus = "C19"; sceneGenesisWithdrawAddrs() }
